@@ -135,4 +135,5 @@ func replay(in, out string) {
 type replayState struct {
 	vars  map[string]interface{}
 	iters *iterSet
+	hist  *histReplay
 }
